@@ -37,6 +37,7 @@ def main(tier):
     ck.run(cj, timeout_ms=300000)
     ck.use_build(['.'], bodies='image,image/color,math/bits')
     ck.run([('.', 'VerifTwinFrame', {})], timeout_ms=300000, interp_budget_s=1500)
+    ck.run([('.', 'VerifNewAfterCleanup', {'type': t}) for t in (0x03, 0x10, 0x1b)], timeout_ms=300000)
     ck.finish(explanation='determinism by self-composition of the real step functions; environment primitives modelled as fresh values per call')
 
 
